@@ -175,9 +175,33 @@ fn reachable_site() -> Site {
         })
 }
 
+/// No memory between calls: every ordered pair of identifiers decoded back to back on one thread.
+fn pairs_site() -> Site {
+    let vals = std::sync::Arc::new(short_read_values());
+    let n = (vals.len() * vals.len()) as u64;
+    Site::new("decode-pairs", n,
+        "every ordered pair of (built-in names, near-names, mod ids) decoded back to back on one thread: the second result is the one the value gets on its own",
+        move |i, acc| {
+            acc.eval();
+            let a = vals[(i as usize) / vals.len()];
+            let b = vals[(i as usize) % vals.len()];
+            let alone = format!("{:?}", Vehicle::read_le(&mut Cursor::new(&b.to_le_bytes()[..])));
+            let _ = Vehicle::read_le(&mut Cursor::new(&a.to_le_bytes()[..]));
+            let after = format!("{:?}", Vehicle::read_le(&mut Cursor::new(&b.to_le_bytes()[..])));
+            // (the judged meaning of `alone` is the business of the other sites)
+            if alone == after {
+                acc.class("pair-agrees");
+                acc.nontrivial();
+            } else {
+                acc.violate(i, "C13|history-dependent".into(), format!("{} decodes to {after} right after {}, to {alone} otherwise", crate::report::hex(&b.to_le_bytes()), crate::report::hex(&a.to_le_bytes())), json!({"site": "decode-pairs", "index": i}));
+            }
+        })
+}
+
 pub fn sites(tier: Tier) -> Vec<Site> {
     let mut s = vec![];
     s.push(packet_site());
+    s.push(pairs_site());
     s.push(reachable_site());
     {
         let vals = std::sync::Arc::new(short_read_values());
